@@ -316,7 +316,26 @@ func (c *layoutCase) eval(p gengotypes.Package) string {
 					continue
 				}
 				tags, doc := p.Doc(o.Pos())
-				per = append(per, "doc="+showTagMap(tags, doc)+";comment="+hxs(p.Comment(o.Pos()), ","))
+				cm := p.Comment(o.Pos())
+				answer := "doc=" + showTagMap(tags, doc) + ";comment=" + hxs(cm, ",")
+				// the answer belongs to the caller: scribbling over it must not change what the next caller is told
+				for i := range doc {
+					doc[i] = "scribbled"
+				}
+				for i := range cm {
+					cm[i] = "scribbled"
+				}
+				for k := range tags {
+					tags[k] = append(tags[k], "scribbled")
+				}
+				if tags != nil {
+					tags["scribbled"] = []string{"x"}
+				}
+				tags2, doc2 := p.Doc(o.Pos())
+				if again := "doc=" + showTagMap(tags2, doc2) + ";comment=" + hxs(p.Comment(o.Pos()), ","); again != answer {
+					answer = "second-answer-differs-after-the-caller-edited-the-first:" + answer + " / " + again
+				}
+				per = append(per, answer)
 			}
 			// every name declared on one line must get the same answer; the row stands for all of them
 			for _, x := range per[1:] {
@@ -689,7 +708,7 @@ func init() {
 			Name: "layout", Quick: 800, Thorough: 8000, New: func() Case { return &layoutCase{} },
 			Gen:      func(r *Rng, i int) Case { return genLayout(r) },
 			BatchRun: layoutBatch, ShrinkBudget: 60, MaxShrinks: 6,
-			Rule: "source files of 1–3 sections (ungrouped var/type/const, struct fields, grouped const/var/type) × 1–7 rows among blank line, 1–3-line comment group (line or block comments, tag lines, go: prose), one- or three-line declaration with or without trailing comment, multi-name declarations; loaded with the real types.Load (400 packages per load); Doc and Comment of every declared name compared with the model on the same layout and with the layout's own ground truth",
+			Rule: "source files of 1–3 sections (ungrouped var/type/const, struct fields, grouped const/var/type) × 1–7 rows among blank line, 1–3-line comment group (line or block comments, tag lines, go: prose), one- or three-line declaration with or without trailing comment, multi-name declarations; loaded with the real types.Load (400 packages per load); Doc and Comment of every declared name compared with the model on the same layout and with the layout's own ground truth; every name is asked twice and the harness scribbles over the first answer (lines, comment, tag map) in between: the second answer must be the same",
 		},
 		{
 			Name: "layout-enum", New: func() Case { return &layoutCase{} },
